@@ -184,6 +184,10 @@ void run_reg(const char *op)
             out_acc(r); out_l_begin(); for (size_t i = 0; i < c.nh; i++) out_l_n(c.handles[i]); out_l_end();
             free(c.script);
             break; }
+        case 11:   /* the caller edits the description: register k gets a new address; a new register_init follows */
+            if (A(0) < ne) entries[A(0)].address = (RegisterAddress)A(1);
+            out_s("edit");
+            break;
         default:
             if (A(0) < na && A(1) < g_storelen[A(0)]) g_store[A(0)][A(1)] = (RegisterAtom)A(2);
             out_s("corrupt");
